@@ -344,7 +344,7 @@ func isolatedRun(args []string) int {
 	{
 		us := &isoUnder{plan: []isoPlan{{out: 'o'}}}
 		us.fixed.Store(&isoPlan{out: 'o', kind: 3, dur: 5 * time.Millisecond})
-		lg := &capLog{ch: make(chan struct{}, 1)}
+		lg := &retryLog{ch: make(chan struct{}, 1)}
 		s, err := quartz.NewStdScheduler(quartz.WithLogger(lg), quartz.WithOutdatedThreshold(time.Minute))
 		must(err)
 		ctx, cancel := context.WithCancel(context.Background())
